@@ -502,6 +502,15 @@ impl<S: ToMsg, I> Sink<S> for MockTransport<S, I> {
             c.rec(Op::Send, Res::Err, Some(m));
             return Err(mkerr("start_send"));
         }
+        // a bounded medium rejects an item it has no room for (tarpc never gets here if it
+        // honours poll_ready; sinks such as futures' bounded channel or PollSender behave so)
+        if c.flavour != Flavour::Always && c.buf.len() >= c.cap {
+            c.rec(Op::Send, Res::Err, Some(m));
+            return Err(io::Error::new(
+                io::ErrorKind::Other,
+                "start_send called on a sink that is not ready",
+            ));
+        }
         c.rec(Op::Send, Res::Ok, Some(m.clone()));
         c.wire.push(m.clone());
         match c.flavour {
